@@ -554,6 +554,10 @@ def run(ctx, config='rel-all'):
     # ---- R8 comparison / hashing / formatting / indexing / borrow impls hand the whole contents to the slice impl; R9 compositions
     forwarding.check(ctx, config, 'R8', 'vec::Vec', 20)
     glue.check_vec(ctx, config, 'R9')
+    # ---- R10 the exported vec! macro (no MIR inside the crate: analysed on its expansion in a client probe)
+    if config == 'rel-all':
+        from . import macros
+        macros.check_vec(ctx, 'R10')
     drainfilter.check(ctx, config, 'O3')
     splice.check(ctx, config, 'O4')
     # ---- R7 std's RawVec/Vec compute every byte size / capacity with checked arithmetic (CapacityOverflow instead of a wrapped size);
